@@ -218,7 +218,7 @@ def C09():
             ("c09_rle16_mega_set_fg_fgbg", "MEGA_MEGA SET_FG_FGBG_IMAGE: pixel count, symbolic mask and foreground", False),
             ("c09_rle16_mega_bg_fg_image", "MEGA_MEGA BG_RUN, FG_RUN and COLOR_IMAGE on the first scanline", False),
             ("c09_rle16_long_regular_color_run", "long regular form (extra byte + 32): COLOR_RUN of 33 through the unrolled loop and its tail", False),
-            ("c09_rle16_long_lite_set_fg_run", "long lite form (extra byte + 16): SET_FG_FG_RUN of 17", False),
+            ("c09_rle16_long_lite_set_fg_run", "long lite form (extra byte + 16): SET_FG_FG_RUN of 17", True),
             ("c09_rle16_fgrun_cross_line", "FG_RUN crossing scanline ends on later scanlines", True),
             ("c09_rle16_unrolled_color_run", "the decoder's 8-way unrolled loop: COLOR_RUN of 10 on a 10-pixel scanline", True)):
         jobs.append(Kani(h, "interleaved 16 bpp RLE, concrete order headers / symbolic values: " + claim, tiers=("quick", "thorough") if q else ("thorough",),
@@ -448,7 +448,8 @@ def C05():
     jobs.append(MirJob("c05_mir_gcc_block_length", "read_conference_create_response: the block-length subtraction cannot underflow for any declared length (header length = 4)",
                        mirjobs.fn_asserts(r"^read_conference_create_response$", "GCC server block header", call_model=mirjobs.gcc_call_model, loop_bound=1, native=mirjobs.gcc_native)))
     jobs.append(MirJob("c05_mir_panic_sites", "connection-setup read path (x224 confirm, GCC response, attach/join confirms, connect response, licence, sec::connect): every reachable unwrap/expect/index/panic call is on a justified allow-list",
-                       mirjobs.panic_sites(mirjobs.SETUP_TARGETS, {r"^read_conference_create_response$": mirjobs.gcc_native_noblocks({})})))
+                       mirjobs.panic_sites(mirjobs.SETUP_TARGETS, {r"^read_conference_create_response$": mirjobs.gcc_native_noblocks({}), r"^client_connect$|^parse_payload$": mirjobs.LICENSE_NATIVE,
+                                                                   r"read_connection_confirm$": mirjobs.X224_CONFIRM_NATIVE})))
     jobs.append(MirJob("c05_mir_setup_arith", "x224 read_connection_confirm, licence client_connect / parse_payload, sec::connect, attach/join confirms: no arithmetic, shift, division or array-index check of their own can fail on wire values",
                        mirjobs.multi(mirjobs.fn_asserts(r"^x224::<impl at src/core/x224\.rs[^>]*>::read_connection_confirm$", "connection confirm", loop_bound=0, native=lambda m: mirjobs.X224_CONFIRM_NATIVE),
                                      mirjobs.fn_asserts(r"^client_connect$", "licence", loop_bound=0), mirjobs.fn_asserts(r"^parse_payload$", "licence", loop_bound=0),
@@ -479,6 +480,8 @@ def C06():
                        mirjobs.panic_sites(mirjobs.SESSION_TARGETS, {r"read_fast_path$": mirjobs.FASTPATH_NATIVE, r"read_(demand_active|synchronize|control|font_map|data)_pdu$|from_(stream|control|pdu)$|from_capability_set$": mirjobs.SESSION_NATIVE})))
     jobs.append(MirJob("c06_mir_data_pdu_guard", "DataPDU::from_pdu (which indexes fields that only data PDUs have) is reached only after the share-control type was compared with PDUTYPE_DATAPDU, in every activation-phase reader",
                        mirjobs.guarded_by(r"^global::<impl at src/core/global\.rs[^>]*>::read_(synchronize_pdu|control_pdu|font_map_pdu|data_pdu)$", r"<PDUType as PartialEq>::(eq|ne)$", r"from_pdu$", "DataPDU::from_pdu", native=mirjobs.SESSION_NATIVE)))
+    jobs.append(MirJob("c06_mir_allocations", "read_fast_path / read_data_pdu / read_demand_active_pdu request no buffer capacity of their own from wire values (allocation stays proportional to the bytes received); an explicit capacity request is confirmed by an allocation-counting native test",
+                       mirjobs.wire_sized_allocations(r"^global::<impl at src/core/global\.rs[^>]*>::(read_fast_path|read_data_pdu|read_demand_active_pdu)$", mirjobs.ALLOC_NATIVE)))
     jobs.append(MirJob("c06_mir_session_arith", "read_fast_path / read_data_pdu / read_demand_active_pdu / PDU::from_control / DataPDU::from_pdu / FastPathUpdate::from_fp / Capability::from_capability_set: no arithmetic check (overflow, division, index) of their own can fail on wire values",
                        mirjobs.multi(*[mirjobs.fn_asserts(rx, "session PDU field", loop_bound=1, native=(lambda m: mirjobs.FASTPATH_NATIVE) if "fast_path" in rx else None)
                                        for rx in (r"^global::<impl at src/core/global\.rs[^>]*>::read_fast_path$", r"^global::<impl at src/core/global\.rs[^>]*>::read_data_pdu$",
